@@ -1,7 +1,7 @@
 #!/bin/bash
 # tools/try_mutation.sh <patch.diff> <prop> [<prop>...]  -- apply a seeded change to /repo, run the quick checks, undo.
 set -u
-patch="$1"; shift
+patch="$(realpath "$1")"; shift
 cd /verif
 git -C /repo apply "$patch" || { echo "patch does not apply"; exit 3; }
 trap 'git -C /repo checkout -- .' EXIT
